@@ -117,6 +117,25 @@ def run(ctx):
         for var, ty in TYPES.items():
             calls = [(bb, t) for bb, t in B.calls() if is_call_to(t, ty + '::with_local_ext_bytes')]
             inst = var
+            # struct-literal form: `ExternalPid { local_ext_bytes: Some(raw), ..pid }`
+            lits = [(bb, j, st) for bb, j, st in B.stmts() if st['k'] == '=' and st['rv']['k'] == 'agg' and st['rv'].get('adt') == ty and 'local_ext_bytes' in (st['rv'].get('fn') or [])]
+            if not calls and var not in stores and lits:
+                bb, j, st = lits[0]
+                fn_ = st['rv']['fn']
+                good, detail = _raw_ok(B, st['rv']['ops'][fn_.index('local_ext_bytes')], (bb, j))
+                carried = True
+                for k_, a in enumerate(st['rv']['ops']):
+                    if fn_[k_] == 'local_ext_bytes':
+                        continue
+                    base, projs = unwrap(B.origin(a, at=(bb, j)))
+                    if not (base is not None and base[0] == 'call' and base[1] and base[1].endswith('parse_term') and fn_[k_] in [str(p_) for p_ in projs]):
+                        carried = False
+                if good and carried:
+                    ctx.ok('C10.1-capture', inst, '%s { local_ext_bytes: Some(start[..len(start) - len(rest)]), ..<the nested %s> }' % (ty.rsplit('::', 1)[1], var.lower()), ctx.where(B, bb))
+                else:
+                    ctx.bad('C10.1-capture', inst, 'raw bytes are not start[..everything consumed by this LOCAL_EXT] / a field is not carried over from the same field of the nested term (%s)' % detail, ctx.where(B, bb),
+                            key='PROV:%sparse_local_ext:%s:capture' % (DEC, var))
+                continue
             if not calls and var in stores:
                 bb, st = stores[var][0]
                 good, detail = _raw_ok(B, st['rv']['op'], (bb, None)) if st['rv']['k'] == 'use' else (_raw_ok(B, st['rv']['ops'][0], (bb, None)) if st['rv']['k'] == 'agg' and st['rv'].get('var') == 'Some' and st['rv'].get('ops') else (False, 'not a Some(..)'))
@@ -152,6 +171,10 @@ def run(ctx):
             continue
         QB = P.B(q)
         kinds = {var for var, ty in TYPES.items() for bb, t in QB.calls() if is_call_to(t, ty + '::with_local_ext_bytes')}
+        if not kinds and q.split('::{')[0].rsplit('::', 1)[0] not in TYPES.values():
+            # struct-literal form
+            kinds |= {var for var, ty in TYPES.items() for bb, j, st in QB.stmts() if st['k'] == '=' and st['rv']['k'] == 'agg' and st['rv'].get('adt') == ty
+                      and 'local_ext_bytes' in (st['rv'].get('fn') or []) and q.startswith(DEC)}
         if not kinds and q.split('::{')[0].rsplit('::', 1)[0] not in TYPES.values():
             # in-place form: a &mut to / a store into the local_ext_bytes field
             for bb, j, st in QB.stmts():
